@@ -104,6 +104,8 @@ def ops_for(kind):
     ops["reset_values_list"] = lambda o: o.reset_values([float(x) * 0.8 + 0.02 for x in o.values])
     ops["add_constant"] = _call("add_constant", 0.37)
     ops["add_constant_tiny"] = lambda o: o.add_constant(4e-9 * max(1.0, float(np.max(np.abs(o.values)))))
+    # a record that differs from the previous one by a few parts in a million in every sample (same length)
+    ops["scale_slightly"] = lambda o: o.reset_values(np.array(o.values) * (1.0 + 4e-6) + 2e-6)
     ops["add_series"] = lambda o: o.add_series(0.1 * np.sin(np.arange(o.npts) / 1.7))
     ops["add_signal"] = _add_signal
     ops["butter_pass"] = _call("butter_pass", (0.9, 14.0), filter_order=2)
@@ -117,6 +119,10 @@ def ops_for(kind):
         (0.4, 18.0) if abs(o.smooth_fa_freqs[0] - 0.4) > 1e-9 else (0.6, 22.0), 11)
     ops["set_smooth_freq_range"] = _setattr("smooth_freq_range", lambda o: (0.45, 17.0) if abs(o.smooth_fa_freqs[0] - 0.45) > 1e-9 else (0.65, 21.0))
     ops["set_smooth_freq_points"] = _setattr("smooth_freq_points", lambda o: 14 if len(o.smooth_fa_freqs) != 14 else 10)
+    def _inplace_freqs(o):
+        o.smooth_fa_freqs *= 1.25           # getter hands out the array, it is edited in place and assigned back
+
+    ops["set_smooth_fa_freqs_inplace"] = _inplace_freqs
     ops["gen_smooth_fa_spectrum_freqs"] = lambda o: o.gen_smooth_fa_spectrum(smooth_fa_freqs=other_freqs(o))
     ops["get_section_average"] = _call("get_section_average", start=0, end=0.1)
     ops["add_series_bad_length"] = _bad_length
@@ -134,6 +140,10 @@ def ops_for(kind):
         ops["set_zero_residual_displacement"] = _call("set_zero_residual_displacement")
         ops["set_zero_residual_displacement_and_velocity"] = _call("set_zero_residual_displacement_and_velocity")
         ops["set_zero_residual_displacement_and_velocity_tz"] = _call("set_zero_residual_displacement_and_velocity", timezone=(0.1, None))
+        def _inplace_rt(o):
+            o.response_times *= 1.25
+
+        ops["set_response_times_inplace"] = _inplace_rt
         ops["set_response_times"] = _setattr("response_times", other_rt)
         ops["response_series_rt"] = lambda o: o.response_series(response_times=other_rt(o))
         ops["gen_response_spectrum_rt"] = lambda o: o.gen_response_spectrum(response_times=other_rt(o))
@@ -328,6 +338,62 @@ def sibling_steps(rep, kind):
     return n
 
 
+def explicit_steps(rep, kind):
+    """Explicit generator calls with non-default settings: (1) what is read straight afterwards equals what a fresh object
+    reports after the same explicit call (a generator may not skip its work because something is memoised); (2) a following
+    default generator call / an invalidating operation brings every derived quantity back to what a fresh object reports
+    (explicit settings are valid until the next change, they do not stick)."""
+    gens = [("gen_fa_spectrum(p2_plus=1)", lambda o: o.gen_fa_spectrum(p2_plus=1), ["fa_spectrum", "fa_freqs"]),
+            ("gen_fa_spectrum(n=N+1)", lambda o: o.gen_fa_spectrum(n=64 + 1), ["fa_spectrum", "fa_freqs"]),
+            ("gen_fa_spectrum(n=N+6)", lambda o: o.gen_fa_spectrum(n=64 + 6), ["fa_spectrum", "fa_freqs"]),
+            ("gen_smooth_fa_spectrum(band=20)", lambda o: o.gen_smooth_fa_spectrum(band=20), ["smooth_fa_spectrum"])]
+    if kind == "AccSignal":
+        gens += [("gen_response_spectrum(xi=0.2)", lambda o: o.gen_response_spectrum(xi=0.2), ["s_a", "s_v", "s_d"]),
+                 ("generate_response_spectrum(xi=0)", lambda o: o.generate_response_spectrum(xi=0), ["s_a", "s_v", "s_d"]),
+                 ("gen_response_spectrum(min_dt_ratio=1)", lambda o: o.gen_response_spectrum(min_dt_ratio=1), ["s_a", "s_v", "s_d"]),
+                 ("generate_displacement_and_velocity_series(trap=False)", lambda o: o.generate_displacement_and_velocity_series(trap=False),
+                  ["velocity", "displacement", "pgv", "pgd"])]
+    defaults = {"fa_spectrum": "gen_fa_spectrum", "smooth_fa_spectrum": "gen_smooth_fa_spectrum", "s_a": "gen_response_spectrum",
+                "velocity": "generate_displacement_and_velocity_series"}
+    invalidate = [("add_constant", lambda o: o.add_constant(0.37)), ("clear_cache", lambda o: o.clear_cache()),
+                  ("reset_values", lambda o: o.reset_values(np.array(o.values) * 1.0))]
+    n = 0
+    for memo in (False, True):
+        for gname, g, reads in gens:
+            for iname, inv in invalidate + [("default generator", None)]:
+                o, f = make(kind), make(kind)
+                if memo:
+                    read_all_inplace(o, kind)
+                try:
+                    apply_op(o, g)
+                    apply_op(f, g)
+                    bad = [r for r in reads if not same(getattr(o, r), getattr(f, r))]
+                    rep.count("ExplicitGenerator")
+                    if bad:
+                        rep.fail("NoStale[%s]" % bad[0], "explicit", {"kind": kind, "generator": gname, "memoised_before": memo,
+                                                                      "differs_from_fresh_object_after_same_call": bad})
+                    if inv is None:
+                        apply_op(o, lambda x: getattr(x, defaults[reads[0]])())
+                    else:
+                        apply_op(o, inv)
+                    codes, fresh, got = project(o, kind)
+                    stale = [q for q in QORDER[kind] if not fresh[q]] + [r for r in UNCACHED if not fresh[r]]
+                    rep.count("ExplicitSettingDoesNotStick")
+                    if stale:
+                        rep.fail("NoStale[%s]" % stale[0], "explicit", {"kind": kind, "generator": gname, "memoised_before": memo,
+                                                                       "then": iname, "stale": stale})
+                    n += 1
+                except Exception as ex:
+                    rep.fail("Raises", "explicit", {"kind": kind, "generator": gname, "then": iname, "error": "%s: %s" % (type(ex).__name__, ex)})
+    return n
+
+
+def read_all_inplace(obj, kind):
+    for q in QORDER[kind]:
+        for r in QREADS[q]:
+            getattr(obj, r)
+
+
 def replay_behaviours(rep, kind, edges, recs, tid0, maxb):
     """-simulate behaviours replayed from a fresh object; every step is also logged for Trace_SignalCache"""
     ops = ops_for(kind)
@@ -425,7 +491,8 @@ def run(tier, seed):
         # 2. spec -> code: every edge of the graph on a real object
         nedges, nstates = walk_graph(rep, kind, edges)
         rep.evaluations += nedges
-        rep.extra["walk_%s" % kind] = {"model_states": nstates, "edges_executed": nedges, "sibling_steps": sibling_steps(rep, kind)}
+        rep.extra["walk_%s" % kind] = {"model_states": nstates, "edges_executed": nedges, "sibling_steps": sibling_steps(rep, kind),
+                                        "explicit_generator_steps": explicit_steps(rep, kind)}
         # 3. long random behaviours from TLC (-simulate), replayed and logged
         if tier == "thorough":
             num, depth, maxb = 150, 60, 150
